@@ -110,6 +110,13 @@ func (mi *modeInterp) eval(v ssa.Value, env modeEnv) boolVal {
 	case *ssa.Phi, *ssa.Parameter, *ssa.FreeVar:
 		return env["v:"+v.Name()]
 	case *ssa.BinOp:
+		if k, ok := nilKey(x); ok {
+			v := env[k]
+			if x.Op == token.NEQ {
+				return v.not()
+			}
+			return v
+		}
 		if k := condKey(x, mi.preds); k != "" {
 			v := env[k]
 			if x.Op == token.NEQ {
@@ -156,9 +163,36 @@ func condKey(v ssa.Value, preds map[string]bool) string {
 			return "c:" + o.Name() + "==" + k.Value.String()
 		case *ssa.Phi:
 			return "c:" + o.Name() + "==" + k.Value.String()
+		case *ssa.Call:
+			// len(x.f) == 0
+			if bi, ok := o.Call.Value.(*ssa.Builtin); ok && bi.Name() == "len" && k.Value.String() == "0" {
+				if _, f, _, okf := fieldOf(o.Call.Args[0]); okf {
+					return "e:" + f
+				}
+			}
 		}
 	}
 	return ""
+}
+
+// nilKey: condition `x.f == nil` / `x.f != nil` on a struct field -> "n:f" (true = nil).
+func nilKey(v ssa.Value) (string, bool) {
+	bo, ok := v.(*ssa.BinOp)
+	if !ok || (bo.Op != token.EQL && bo.Op != token.NEQ) {
+		return "", false
+	}
+	var other ssa.Value
+	if isNilConst(bo.Y) {
+		other = bo.X
+	} else if isNilConst(bo.X) {
+		other = bo.Y
+	} else {
+		return "", false
+	}
+	if _, f, _, ok := fieldOf(other); ok {
+		return "n:" + f, true
+	}
+	return "", false
 }
 
 // reachable: can a target instruction be executed starting at fn's entry with
@@ -295,7 +329,12 @@ func (mi *modeInterp) explore(fn *ssa.Function, env0 modeEnv, depth int) ssa.Ins
 			default:
 				inner, neg := unwrapNot(t.Cond)
 				name := ""
-				if k := condKey(inner, mi.preds); k != "" {
+				if k, ok := nilKey(inner); ok {
+					name = k
+					if bo := inner.(*ssa.BinOp); bo.Op == token.NEQ {
+						neg = !neg
+					}
+				} else if k := condKey(inner, mi.preds); k != "" {
 					name = k
 					if bo, ok := inner.(*ssa.BinOp); ok && bo.Op == token.NEQ {
 						neg = !neg
